@@ -3,6 +3,7 @@
 package world
 
 import (
+	"archive/tar"
 	"context"
 	"database/sql"
 	"fmt"
@@ -16,10 +17,13 @@ import (
 	golog "github.com/fclairamb/go-log"
 	"github.com/pojntfx/stfs/pkg/cache"
 	"github.com/pojntfx/stfs/pkg/config"
+	"github.com/pojntfx/stfs/pkg/encryption"
 	"github.com/pojntfx/stfs/pkg/fs"
 	"github.com/pojntfx/stfs/pkg/mtio"
 	"github.com/pojntfx/stfs/pkg/operations"
 	"github.com/pojntfx/stfs/pkg/persisters"
+	"github.com/pojntfx/stfs/pkg/recovery"
+	"github.com/pojntfx/stfs/pkg/signature"
 	"github.com/pojntfx/stfs/pkg/tape"
 )
 
@@ -294,4 +298,36 @@ func NewDir(tag string) string {
 	_ = os.RemoveAll(d)
 	_ = os.MkdirAll(d, 0700)
 	return d
+}
+
+// Reindex runs recovery.Index over the world's drive into the world's index with the real
+// decrypt and verify callbacks (exactly what STFS.Initialize passes).
+func (w *World) Reindex(overwrite bool, onHeader func(*config.Header)) error {
+	rd, err := w.Backend.GetReader()
+	if err != nil {
+		_ = w.Backend.CloseReader()
+		return err
+	}
+	defer w.Backend.CloseReader()
+	pipes := w.Cfg.Pipes()
+	return recovery.Index(rd, w.Backend.MagneticTapeIO, config.MetadataConfig{Metadata: w.Meta}, pipes, w.ReadCrypto,
+		0, 0, overwrite, false, 0,
+		func(hdr *tar.Header, i int) error {
+			return encryption.DecryptHeader(hdr, pipes.Encryption, w.ReadCrypto.Identity)
+		},
+		func(hdr *tar.Header, isRegular bool) error {
+			return signature.VerifyHeader(hdr, isRegular, pipes.Signature, w.ReadCrypto.Recipient)
+		},
+		onHeader)
+}
+
+// QueryTape runs recovery.Query from the start of the tape.
+func (w *World) QueryTape(onHeader func(*config.Header)) ([]*tar.Header, error) {
+	rd, err := w.Backend.GetReader()
+	if err != nil {
+		_ = w.Backend.CloseReader()
+		return nil, err
+	}
+	defer w.Backend.CloseReader()
+	return recovery.Query(rd, w.Backend.MagneticTapeIO, w.Cfg.Pipes(), w.ReadCrypto, 0, 0, onHeader)
 }
